@@ -232,7 +232,7 @@ let classify_m1 (st : mstate) (toks : string list) (model : string) (impl : stri
       else if o = "save" && starts_with "fl(viol,op=save," impl && all_in [ "reopenerr"; "reopenmixture" ] then Some "C05-split-commit"
       else if o = "lvfo" && starts_with "cr(viol" impl && all_in [ "mixture"; "loaderr" ] then Some "C05-split-rollback"
       else if o = "prune" && starts_with "cr(viol" impl && all_in [ "retrydiffers" ] then Some "C05-split-prune"
-      else if o = "import" && has "kind=reopenerr," then
+      else if (o = "import" || o = "bigimport") && has "kind=reopenerr," then
         (* position i of fl(viol,op=import_V,i=I/N,..): only after the first background batch *)
         (try
            let a = Str.search_forward (Str.regexp ",i=\\([0-9]+\\)/") impl 0 in
@@ -501,6 +501,7 @@ let make_m1 (params : string list) : machine =
             let is_h = (List.hd toks = "hbound") in
             if t = "w" || List.exists (fun (w, _) -> int_of_z w = int_of_string (String.sub t 1 (String.length t - 1))) !st.forest
             then (if is_h then "hb(ok)" else "ct(ok)") else "err"
+        | [ "bigimport"; _ ] -> "ok"   (* fault bigimport n: a scratch tree, not part of the history *)
         | [ "import"; v ] ->
             (* fault import v: the live tree is not touched *)
             if List.exists (fun (w, _) -> int_of_z w = int_of_string v) !st.forest then "ok" else "err"
@@ -560,6 +561,7 @@ let make_m1 (params : string list) : machine =
                 match x with XPair (_, v) -> show_out v | _ -> "err"
               end
             end
+        | [ "costsweep" ] -> "cs(ok)"
         | [ "isempty" ] ->
             (match snd (m_step !st (ORead (TWorking, RSize))) with XInt z -> if int_of_z z = 0 then "t" else "f" | _ -> "err")
         | [ "fastflags" ] ->
